@@ -22,3 +22,57 @@ def replay(run, bins, rp):
         print("no replay for phase", rp["phase"])
         return 2
     return fn(run, bins, rp)
+
+
+def strace_ro(run, bins, ph):
+    """C09 thorough: run ReadOnly-session cases of the rel flavor under strace and require that between the
+    ro-begin / ro-end markers the file under test is only ever opened O_RDONLY and that no write-family
+    syscall is issued on one of its descriptors."""
+    import tempfile, shutil
+    binary = bins.get("rel") or vlib.build(["rel"])["rel"]
+    n = ph.get("cases", 12)
+    sessions = 0
+    for i in range(n):
+        case = (i // 2) * 8 + (i % 2) * 3          # case indices of the ReadOnly families (index % 8 in {0, 3})
+        d = tempfile.mkdtemp(prefix="nixverif-strace-")
+        log = os.path.join(d, "strace.log")
+        cmd = ["strace", "-f", "-qq", "-e", "trace=openat,open,write,pwrite64,pwritev,writev,ftruncate,fallocate,access,faccessat,faccessat2,close,unlink,rename,renameat,renameat2", "-o", log,
+               binary, "--prop", "C09", "--tier", "quick", "--seed", str(run.seed), "--first", str(case), "--inproc", "--scratch", d]
+        r = subprocess.run(cmd, stdout=subprocess.PIPE, stderr=subprocess.PIPE, text=True)
+        if r.returncode != 0 or not os.path.exists(log):
+            run.inconclusive.append({"case": case, "why": "strace run failed", "stderr": r.stderr[-300:]})
+            shutil.rmtree(d, ignore_errors=True)
+            continue
+        active = {}      # pid -> in ro session
+        fds = {}         # (pid-group ignored) fd -> path, for the file under test
+        inside = False
+        bad = []
+        for line in open(log, errors="replace"):
+            if "VERIF-MARK-ro-begin" in line:
+                inside = True; fds = {}; sessions += 1; continue
+            if "VERIF-MARK-ro-end" in line:
+                inside = False; continue
+            if not inside:
+                continue
+            m = re.search(r'open(?:at)?\((?:AT_FDCWD, )?"([^"]*c09\.nix[^"]*)", ([A-Z_|]+)[^)]*\)\s*=\s*(-?\d+)', line)
+            if m:
+                path, flags, fd = m.group(1), m.group(2), int(m.group(3))
+                if "O_WRONLY" in flags or "O_RDWR" in flags or "O_TRUNC" in flags or "O_CREAT" in flags:
+                    bad.append("opened writable: " + line.strip()[:200])
+                if fd >= 0:
+                    fds[fd] = path
+                continue
+            m = re.search(r'\b(write|pwrite64|pwritev|writev|ftruncate|fallocate)\((\d+)', line)
+            if m and int(m.group(2)) in fds:
+                bad.append("write-family syscall on the file: " + line.strip()[:200])
+            m = re.search(r'\bclose\((\d+)\)', line)
+            if m:
+                fds.pop(int(m.group(1)), None)
+            if re.search(r'(unlink|rename\w*)\([^)]*c09\.nix', line):
+                bad.append("unlink/rename of the file: " + line.strip()[:200])
+        for b in bad[:3]:
+            run.add_violation("C09/readonly/syscall/" + b.split(":")[0].replace(" ", "-"), b, {"case": case, "phase": "strace_ro"})
+        run.checks += 1
+        shutil.rmtree(d, ignore_errors=True)
+    run.extra_cov["strace_ro_sessions_monitored"] = sessions
+    run.counters["monitored_events"] = run.counters.get("monitored_events", 0) + sessions
